@@ -18,7 +18,9 @@ LEVEL_TEXT = ("Decides clauses C07-a..d: for each generic IntoHandler impl, with
               "handler n_params <= route n_params before the final router exists; the ten integer FromParam impls parse the whole parameter with "
               "str::parse::<Self> and no prefix parser is reachable; the blanket FromRequest for FromBody calls from_body only under Content-Type present, "
               "its prefix equal to B::MIME_TYPE and a payload present, mapping failures to 400; the four body formats pair their media type with their "
-              "decoder; Option<FR> is None only when the inner extractor reports absence; from_raw_param hands from_param the percent-decoded text. "
+              "decoder; Option<FR> is None only when the inner extractor reports absence; from_raw_param hands from_param the percent-decoded text; a file part of a Multipart body is "
+              "reported as `no file` (Option<File> = None, Vec<File> shorter) only when it has neither a filename nor content (C07-e, the multipart codec's "
+              "empty-file and kind-mismatch decisions re-evaluated: what a typed body extractor hands the handler). "
               "Decides these clauses, not the exactness of every delivered value.")
 
 IH = "ohkami::fang::handler::into_handler::IntoHandler"
@@ -33,6 +35,7 @@ def run(ck, progs):
         ck.guard("C07-b API-MISUSE integer params", lambda: c07b(ck, prog))
         ck.guard("C07-c MUSTPASS body gate", lambda: c07c(ck, prog))
         ck.guard("C07-d MUSTPASS percent-decoding", lambda: c07d(ck, prog))
+        ck.guard("C07-e DECISION multipart file presence", lambda: c07e(ck, prog))
     ck.config = None
 
 
@@ -337,3 +340,23 @@ def c07d(ck, prog):
         ck.ob(R, "decode-error-stops", bool(hit), f.loc(None), "" if hit else "from_param can run although percent-decoding failed", how="from_param under the Ok edge of percent_decode_utf8(..).map_err(..)")
     else:
         ck.ob(R, "from_param-gets-decoded-text", False, f.loc(None), "from_raw_param does not call from_param exactly once")
+
+
+def c07e(ck, prog):
+    """`the handler receives exactly what the request carries` for Multipart<T> bodies: a file field is absent for the handler
+    only when the form's file input was left blank (no filename and no content), and a part of the wrong kind is an error,
+    not a default. These are decisions of the multipart codec (C10-c, C10-d) re-evaluated here, because Option<File> /
+    Vec<File> fields of a typed body are where a dropped zero-byte upload shows."""
+    R = "C07-e DECISION multipart file presence"
+    from . import C10
+    sub = type(ck)(ck.prop, ck.tier)
+    sub.config = ck.config
+    sub.guard("C10-c DECISION empty file", lambda: C10.c10c(sub, prog))
+    sub.guard("C10-d DECISION kind mismatch", lambda: C10.c10d(sub, prog))
+    n = 0
+    for o in sub.obs:
+        if o["key"].startswith("floor:"):
+            continue
+        n += 1
+        ck.ob(R, o["rule"].split(" ")[0] + ":" + o["key"], o["ok"], o["where"], o["detail"], how=o["how"], nontrivial=o.get("nontrivial", True))
+    ck.floor(R, "codec decisions", n, 2)
